@@ -49,6 +49,7 @@ type vPlanC34 struct {
 	destroyed map[string]int             // per damaged pack: blobs that do not
 	avail     map[restic.BlobHandle]bool // some copy still authenticates
 	lost      map[restic.BlobHandle]bool
+	viaHeader int // blobs readable only through the damaged file's own header
 }
 
 // plan decides blob availability from the damaged store without the code under test.
@@ -74,6 +75,15 @@ func (r *vRepoC03) planC34(s *vbe.Store, muts []vMutC03) vPlanC34 {
 				p.intact[pack]++
 			} else {
 				p.destroyed[pack]++
+			}
+		}
+		// a damaged file may carry an intact header of its own that lists other blobs than
+		// the index does (a whole pack stored under another pack's name): what authenticates
+		// at the header's positions can be read from the named pack as well
+		for _, b := range r.headerBlobs(pack, buf) {
+			if _, known := r.copies[b.H]; known && !p.avail[b.H] && r.blobIntact(buf, b) {
+				p.avail[b.H] = true
+				p.viaHeader++
 			}
 		}
 	}
@@ -227,6 +237,9 @@ func (r *vRepoC03) evalRepairC34(muts []vMutC03) (classes []string, nontrivial b
 		}
 	}
 	classes = append(classes, fmt.Sprintf("lost_blobs=%v", len(plan.lost) > 0))
+	if plan.viaHeader > 0 {
+		classes = append(classes, "salvage_via_own_header")
+	}
 	se := r.e.OnStore(s)
 	defer se.Release()
 	fail := func(f string, a ...any) ([]string, bool, string) {
